@@ -187,6 +187,9 @@ class Ctx:
         return n - 1
 
 
+PARTIAL_REFUTED = []
+
+
 def explore(run, max_paths=4000):
     """run(ctx) for every feasible path. Returns list of ctx (finished paths)."""
     work = [[]]
@@ -199,6 +202,13 @@ def explore(run, max_paths=4000):
             ctx.ended = "ok"
         except PathEnd:
             ctx.ended = "cut"
+        except BaseException:
+            # the unit leaves the subset (or the harness fails) on this path: what was REFUTED before that - on this path and on the paths
+            # already finished - stays refuted; report.py reports it next to the verdict of the bounded stand-in
+            from . import loader as _ld
+            if not _ld.MUTATED:
+                PARTIAL_REFUTED.extend(r for c in done + [ctx] for r in getattr(c, "results", []) if getattr(r, "verdict", None) == "refuted")
+            raise
         work.extend(ctx.alternatives)
         done.append(ctx)
         if len(done) > max_paths:
